@@ -92,6 +92,8 @@ fn kind_class(kind: &str) -> &'static str {
 
 pub struct Engine {
     pub arena: Arena,
+    /// second arena for auxiliary mappings (copies), so that they never overlap the slice under test
+    pub aux: Arena,
     pub default_props: Vec<String>,
     pub verbose: bool,
 }
@@ -250,7 +252,7 @@ impl<'a> Visitor for DecVisitor<'a> {
                         out.viol("C05", "size-gt-slice", id, "size()>len", format!("size() = {} mapped from {} bytes", size, bs.len()));
                     } else {
                         // mapping only the first size() bytes again
-                        let p2 = eng.arena.place(*size, 0, 16, Place::End);
+                        let p2 = eng.aux.place(*size, 0, 16, Place::End);
                         p2.slice().copy_from_slice(&bs[..*size]);
                         let r2 = guarded(|| T::from_bytes(p2.slice()).map(|x| (x.read(&mut Ctx::unbounded()), x.size())));
                         match r2 {
@@ -294,7 +296,7 @@ impl<'a> Visitor for DecVisitor<'a> {
                         // "the same size()": compared with what the library itself says for the message alone
                         // (whether that equals the reference extent is C05's question)
                         if msize <= bs.len() {
-                            let p2 = eng.arena.place(msize, 0, 16, Place::End);
+                            let p2 = eng.aux.place(msize, 0, 16, Place::End);
                             p2.slice().copy_from_slice(&bs[..msize]);
                             if let Obs::Ret(Ok(s0)) = guarded(|| T::from_bytes(p2.slice()).map(|x| x.size())) {
                                 if *size != s0 {
@@ -328,9 +330,534 @@ impl<'a> Visitor for DecVisitor<'a> {
     }
 }
 
+fn probe_diff(spec: &Value, got: &Value, path: &str) -> Option<String> {
+    match spec {
+        Value::Object(a) => {
+            if a.contains_key("leaf") {
+                return None;
+            }
+            for (k, x) in a.iter() {
+                let y = got.get(k).cloned().unwrap_or(Value::Null);
+                if let Some(d) = probe_diff(x, &y, &format!("{}.{}", path, k)) {
+                    return Some(d);
+                }
+            }
+            None
+        }
+        Value::Array(a) => {
+            let b = got.as_array().cloned().unwrap_or_default();
+            if a.len() != b.len() {
+                return Some(format!("{}: {} entries expected, {} observed", path, a.len(), b.len()));
+            }
+            for (i, (x, y)) in a.iter().zip(b.iter()).enumerate() {
+                if let Some(d) = probe_diff(x, y, &format!("{}[{}]", path, i)) {
+                    return Some(d);
+                }
+            }
+            None
+        }
+        _ => {
+            let same = spec == got || (spec.as_i64() == Some(-1) && got.is_null());
+            if same {
+                None
+            } else {
+                Some(format!("{}: reference {} observed {}", path, spec, got))
+            }
+        }
+    }
+}
+
+struct LayoutVisitor<'a> {
+    eng: &'a Engine,
+    case: &'a Value,
+    out: &'a mut Out,
+}
+
+impl<'a> Visitor for LayoutVisitor<'a> {
+    type Out = ();
+    fn visit<T: Shape + ?Sized>(self) {
+        let LayoutVisitor { eng, case, out } = self;
+        let id = case["id"].as_str().unwrap_or("?");
+        let f = &case["facts"];
+        let img = bytes_of(&case["img"]);
+        let l = img.len();
+        let u = |k: &str| f[k].as_u64().unwrap_or(0) as usize;
+        out.count("layout.case");
+        out.count("judged.C04");
+        if l > T::MIN_SIZE || !f["sized"].as_bool().unwrap_or(true) {
+            out.count("layout.unsized");
+        }
+        out.sample(&format!("layout.{}", if f["sized"] == json!(true) { "sized" } else { "unsized" }), case);
+        if T::ALIGN != u("align") {
+            out.viol("C04", "align", id, "const", format!("ALIGN = {} reference {}", T::ALIGN, u("align")));
+        }
+        if T::MIN_SIZE != u("min") {
+            out.viol("C04", "min_size", id, "const", format!("MIN_SIZE = {} reference {}", T::MIN_SIZE, u("min")));
+        }
+        let pl = eng.arena.place(l, 0, 16, Place::End);
+        pl.slice().copy_from_slice(&img);
+        let r = guarded(|| {
+            let x = match T::from_bytes(pl.slice()) {
+                Ok(x) => x,
+                // the image is valid by the specification; whether the library accepts it is C02's question
+                Err(_) => unsafe { T::from_bytes_unchecked(pl.slice()) },
+            };
+            (std::mem::align_of_val(x), std::mem::size_of_val(x), x.as_bytes().len(), x as *const T as *const u8 as usize - pl.lo(), x.probe(pl.lo()))
+        });
+        match r {
+            Obs::Panic(m) => out.viol("C04", "probe", id, "panic", m),
+            Obs::Ret((av, sv, ab, at, probe)) => {
+                if av != u("align") {
+                    out.viol("C04", "align", id, "align_of_val", format!("align_of_val = {} reference {}", av, u("align")));
+                }
+                if sv != u("view") {
+                    out.viol("C04", "view", id, "size_of_val", format!("size_of_val = {} reference {} (slice of {} bytes)", sv, u("view"), l));
+                }
+                if sv > l {
+                    out.viol("C04", "view", id, "size_of_val>slice", format!("size_of_val = {} of a value mapped from {} bytes", sv, l));
+                }
+                if ab != u("view") {
+                    out.viol("C04", "view", id, "as_bytes", format!("as_bytes().len() = {} reference {} (slice of {} bytes)", ab, u("view"), l));
+                }
+                if ab > l {
+                    out.viol("C04", "view", id, "as_bytes>slice", format!("as_bytes().len() = {} of a value mapped from {} bytes", ab, l));
+                }
+                if at != 0 {
+                    out.viol("C04", "view", id, "start", format!("value starts at offset {}", at));
+                }
+                if let Some(d) = probe_diff(&case["probe"], &probe, "") {
+                    out.viol("C04", "offset", id, "accessor", d);
+                }
+            }
+        }
+    }
+}
+
+struct EmpVisitor<'a> {
+    eng: &'a Engine,
+    case: &'a Value,
+    out: &'a mut Out,
+}
+
+impl<'a> Visitor for EmpVisitor<'a> {
+    type Out = ();
+    fn visit<T: Shape + ?Sized>(self) {
+        let EmpVisitor { eng, case, out } = self;
+        let id = case["id"].as_str().unwrap_or("?");
+        let props = props_of(case, &eng.default_props);
+        let has = |p: &str| props.iter().any(|x| x == p);
+        let l = case["L"].as_u64().unwrap_or(0) as usize;
+        let addr = case["addr"].as_u64().unwrap_or(0) as usize;
+        let mode = case["mode"].as_str().unwrap_or("new");
+        let exp = &case["exp"];
+        let o = exp["o"].as_str().unwrap_or("");
+        let kinds: Vec<&str> = arr(&exp["kinds"]).iter().filter_map(|k| k.as_str()).collect();
+        let portable = case["portable"].as_bool().unwrap_or(false);
+        let class = format!("emp.{}.{}{}", mode, o, if addr != 0 { ".misaligned" } else { "" });
+        out.count(&class);
+        out.sample(&class, case);
+        if mode == "default" && !T::has_default() {
+            out.count("emp.default.unsupported");
+            return;
+        }
+        if has("C15") { out.count("judged.C15"); }
+        if has("C03") && o == "ok" && mode == "new" { out.count("judged.C03"); }
+        if has("C20") && mode == "default" && o != "err" { out.count("judged.C20"); }
+        if has("C14") { out.count("judged.C14"); }
+        if has("C17") && portable { out.count("judged.C17"); }
+        if has("C17") && portable && T::ALIGN != 1 {
+            out.viol("C17", "align", id, "ALIGN", format!("portable type has ALIGN = {}", T::ALIGN));
+        }
+        let img: Vec<i64> = arr(&exp["img"]).iter().map(|x| x.as_i64().unwrap_or(-1)).collect();
+        let mut first_read: Option<Value> = None;
+        for (fi, fill) in [0x00u8, 0xFF, 0x5A].iter().enumerate() {
+            let fl = fi as u32;
+            let tag = format!("fill{:02x}", fill);
+            let pl = eng.arena.place(l, addr, 16, Place::End);
+            for b in pl.slice().iter_mut() {
+                *b = *fill;
+            }
+            let via_wrap = fi == 2;
+            let r = guarded(|| {
+                let res: Result<&mut T, flatty::Error> = if mode == "default" {
+                    T::default_in_place_(pl.slice())
+                } else if via_wrap {
+                    match flatty::FlatWrap::<T, &mut [u8]>::new_in_place(pl.slice(), T::emp(&case["content"], fl)) {
+                        Ok(w) => {
+                            let _ = &*w;
+                            drop(w);
+                            Ok(unsafe { T::from_mut_bytes_unchecked(pl.slice()) })
+                        }
+                        Err(e) => Err(e),
+                    }
+                } else {
+                    T::new_in_place(pl.slice(), T::emp(&case["content"], fl))
+                };
+                match res {
+                    Ok(x) => {
+                        let mut c = Ctx::new(pl.lo(), pl.hi());
+                        let read = x.read(&mut c);
+                        let size = x.size();
+                        let ab = x.as_bytes();
+                        c.range("as_bytes", ab.as_ptr() as usize, ab.len());
+                        let reval = res_json(&T::validate(ab));
+                        Ok((read, size, reval, c.oob, c.lencap, c.other))
+                    }
+                    Err(e) => Err(e),
+                }
+            });
+            if has("C14") && !pl.canaries_ok() {
+                out.viol("C14", "outside", id, &format!("emplace.{}", mode), format!("bytes outside the {}-byte slice changed ({})", l, tag));
+            }
+            let rel = format!("{}.{}", mode, o);
+            let res = match r {
+                Obs::Panic(m) => {
+                    if has("C15") {
+                        out.viol("C15", "panic", id, &rel, format!("{} (L={}, addr={}, {})", m, l, addr, tag));
+                    }
+                    continue;
+                }
+                Obs::Ret(x) => x,
+            };
+            match (&res, o) {
+                (Err(e), "ok") => {
+                    let d = format!("content that fits {} bytes refused: {} ({})", l, err_json(e), tag);
+                    if has("C15") { out.viol("C15", "refused", id, &rel, d.clone()); }
+                    if has("C03") && mode == "new" { out.viol("C03", "refused", id, &rel, d.clone()); }
+                    if has("C20") && mode == "default" { out.viol("C20", "refused", id, &rel, d.clone()); }
+                    if has("C17") && portable { out.viol("C17", "refused", id, &format!("addr{}", addr), d); }
+                }
+                (Err(e), _) => {
+                    let k = err_json(e);
+                    let kk = k["kind"].as_str().unwrap_or("");
+                    if has("C15") && !kinds.iter().any(|x| *x == kk) {
+                        out.viol("C15", "error-kind", id, &format!("{}:{}", rel, kk), format!("L={} addr={}: {} expected one of {:?} ({})", l, addr, k, kinds, tag));
+                    }
+                }
+                (Ok(_), "err") => {
+                    if has("C15") {
+                        out.viol("C15", "accepted", id, &rel, format!("L={} addr={}: accepted, expected {:?} ({})", l, addr, kinds, tag));
+                    }
+                }
+                (Ok((read, size, reval, oob, lencap, other)), _) => {
+                    // accepted ("ok", or "either" where an accepting implementation must still be right)
+                    let mut probs: Vec<(&str, String)> = vec![];
+                    let want = if o == "ok" { exp["tree"].clone() } else { case["content"].clone() };
+                    if o == "ok" {
+                        if let Some(d) = tree_diff(&want, read, true, "") {
+                            probs.push(("readback", d));
+                        }
+                    }
+                    if reval["ok"] != json!(true) {
+                        probs.push(("validate", format!("validate(as_bytes()) = {}", reval)));
+                    }
+                    if !oob.is_empty() || !lencap.is_empty() || !other.is_empty() {
+                        probs.push(("accessors", format!("{:?} {:?} {:?}", oob, lencap, other)));
+                    }
+                    if *size > l {
+                        probs.push(("size", format!("size() = {} in a slice of {}", size, l)));
+                    }
+                    if o == "ok" {
+                        for (i, m) in img.iter().enumerate() {
+                            if *m >= 0 && pl.slice()[i] as i64 != *m {
+                                probs.push(("image", format!("byte {} is {} reference {}", i, pl.slice()[i], m)));
+                                break;
+                            }
+                        }
+                    }
+                    for (chk, d) in &probs {
+                        let d2 = format!("{} (L={}, {})", d, l, tag);
+                        if has("C03") && mode == "new" && o == "ok" { out.viol("C03", chk, id, &rel, d2.clone()); }
+                        if has("C15") { out.viol("C15", chk, id, &rel, d2.clone()); }
+                        if has("C20") && mode == "default" { out.viol("C20", chk, id, &rel, d2.clone()); }
+                        if has("C17") && portable && o == "ok" { out.viol("C17", chk, id, &format!("addr{}", addr), d2.clone()); }
+                    }
+                    if has("C20") && mode == "default" && o == "ok" {
+                        let es = exp["size"].as_u64().unwrap_or(0) as usize;
+                        if *size != es {
+                            out.viol("C20", "size", id, &rel, format!("size() = {} after default_in_place, minimal size of the default state {} ({})", size, es, tag));
+                        }
+                        match &first_read {
+                            None => first_read = Some(read.clone()),
+                            Some(f) => {
+                                if let Some(d) = tree_diff(f, read, true, "") {
+                                    out.viol("C20", "prior-contents", id, &rel, format!("result depends on the previous contents of the buffer: {}", d));
+                                }
+                            }
+                        }
+                        if let Some(rd) = T::rust_default() {
+                            if let Some(d) = tree_diff(&rd, read, false, "") {
+                                out.viol("C20", "rust-default", id, &rel, format!("differs from Default::default(): {}", d));
+                            }
+                        }
+                    }
+                    if has("C17") && portable && o == "ok" {
+                        // the bytes of the value are exactly the reference serialisation
+                        let es = exp["size"].as_u64().unwrap_or(0) as usize;
+                        if *size != es {
+                            out.viol("C17", "size", id, &format!("addr{}", addr), format!("size() {} reference {}", size, es));
+                        }
+                    }
+                }
+            }
+        }
+    }
+}
+
+struct OpVisitor<'a> {
+    eng: &'a Engine,
+    case: &'a Value,
+    out: &'a mut Out,
+}
+
+struct OpObs {
+    results: Vec<Value>,
+    read: Value,
+    size: usize,
+    revalidate: Value,
+    remap: Option<(Value, usize)>,
+    remap_err: Option<String>,
+    eq_self: Option<bool>,
+    oob: Vec<String>,
+    lencap: Vec<String>,
+    other: Vec<String>,
+}
+
+impl<'a> Visitor for OpVisitor<'a> {
+    type Out = ();
+    fn visit<T: Shape + ?Sized>(self) {
+        let OpVisitor { eng, case, out } = self;
+        let id = case["id"].as_str().unwrap_or("?");
+        let props = props_of(case, &eng.default_props);
+        let has = |p: &str| props.iter().any(|x| x == p);
+        let pre: Vec<i64> = arr(&case["pre"]).iter().map(|x| x.as_i64().unwrap_or(0)).collect();
+        let l = pre.len();
+        let steps = arr(&case["steps"]);
+        let exp = &case["exp"];
+        let node = case["node"].as_str().unwrap_or("");
+        let via_flex = arr(&case["via"]).iter().any(|k| k == "flex");
+        let op0 = steps[0]["op"]["op"].as_str().unwrap_or("");
+        let ok0 = steps[0]["ok"].as_bool().unwrap_or(false);
+        let anyvalid = exp["anyvalid"].as_bool().unwrap_or(false);
+        let follow = steps.len() > 1;
+        let class = format!("op.{}.{}.{}{}", node, op0, if ok0 { "ok" } else { "refused" }, if follow { ".follow" } else { "" });
+        out.count(&class);
+        out.sample(&class, case);
+        let j11 = matches!(node, "vec" | "str");
+        let j12 = node == "flex" || via_flex;
+        let j13 = !ok0 && matches!(node, "vec" | "str" | "flex") && matches!(op0, "push" | "push_slice" | "push_str" | "push_default");
+        let j18 = op0 == "assign" && !ok0;
+        if has("C11") && j11 { out.count("judged.C11"); }
+        if has("C12") && j12 { out.count("judged.C12"); }
+        if has("C13") && j13 { out.count("judged.C13"); }
+        if has("C14") { out.count("judged.C14"); }
+        if has("C18") && j18 { out.count("judged.C18"); }
+        if has("C05") { out.count("judged.C05"); }
+
+        for (fi, fill) in [0x00u8, 0xFF, 0x5A].iter().enumerate() {
+            let fl = fi as u32;
+            let pl = eng.arena.place(l, 0, 16, Place::End);
+            let prebytes: Vec<u8> = pre.iter().map(|b| if *b < 0 { *fill } else { *b as u8 }).collect();
+            pl.slice().copy_from_slice(&prebytes);
+            let tag = format!("fill{:02x}", fill);
+            let r = guarded(|| -> Result<OpObs, String> {
+                let x = T::from_mut_bytes(pl.slice()).map_err(|e| format!("pre-image rejected: {}", err_json(&e)))?;
+                let mut results = vec![];
+                for st in steps {
+                    let path: Vec<usize> = arr(&st["path"]).iter().map(|p| p.as_u64().unwrap_or(0) as usize).collect();
+                    results.push(x.apply(&path, &st["op"], fl));
+                }
+                let mut c = Ctx::new(pl.lo(), pl.hi());
+                let read = x.read(&mut c);
+                let size = x.size();
+                let ab = x.as_bytes();
+                c.range("as_bytes", ab.as_ptr() as usize, ab.len());
+                let revalidate = res_json(&T::validate(ab));
+                Ok(OpObs { results, read, size, revalidate, remap: None, remap_err: None, eq_self: None, oob: c.oob, lencap: c.lencap, other: c.other })
+            });
+            let mut obs = match r {
+                Obs::Panic(m) => {
+                    for p in ["C11", "C12", "C13", "C18"] {
+                        let j = match p { "C11" => j11, "C12" => j12, "C13" => j13, _ => j18 };
+                        if has(p) && j {
+                            out.viol(p, "panic", id, &format!("{}.{}", node, op0), format!("{} ({})", m, tag));
+                        }
+                    }
+                    if has("C14") && !pl.canaries_ok() {
+                        out.viol("C14", "outside", id, &format!("{}.{}", node, op0), "bytes outside the slice changed (call panicked)".into());
+                    }
+                    continue;
+                }
+                Obs::Ret(Err(m)) => {
+                    out.count("op.preimage-rejected");
+                    for p in ["C11", "C12", "C13", "C18", "C14", "C05"] {
+                        if has(p) {
+                            out.viol(p, "preimage", id, node, format!("{} ({})", m, tag));
+                        }
+                    }
+                    continue;
+                }
+                Obs::Ret(Ok(o)) => o,
+            };
+            let post: Vec<u8> = pl.slice().to_vec();
+            // map the resulting bytes again (all of them, and only the first size() of them)
+            {
+                let p2 = eng.aux.place(l, 0, 16, Place::Start);
+                p2.slice().copy_from_slice(&post);
+                let rr = guarded(|| {
+                    T::from_bytes(p2.slice()).map(|y| {
+                        let yv = y.read(&mut Ctx::unbounded());
+                        let eq = T::from_bytes(pl.slice()).ok().and_then(|x| x.eq_(y));
+                        (yv, y.size(), eq)
+                    })
+                });
+                match rr {
+                    Obs::Ret(Ok((yv, ys, eq))) => {
+                        obs.remap = Some((yv, ys));
+                        obs.eq_self = eq;
+                    }
+                    Obs::Ret(Err(e)) => obs.remap_err = Some(format!("{}", err_json(&e))),
+                    Obs::Panic(m) => obs.remap_err = Some(format!("panic: {}", m)),
+                }
+            }
+            let rel = format!("{}.{}", node, op0);
+            let mut generic: Vec<(&str, String, String)> = vec![]; // (check, relation, detail) shared by C11/C12
+            for (i, st) in steps.iter().enumerate() {
+                let got = &obs.results[i];
+                if got.get("unsupported").is_some() {
+                    out.count("op.unsupported");
+                    generic.push(("harness", "unsupported".into(), format!("{}", got)));
+                    continue;
+                }
+                if got["ok"] != st["ok"] {
+                    generic.push(("result", format!("{}:impl={},spec={}", st["op"]["op"].as_str().unwrap_or(""), got["ok"], st["ok"]), format!("step {} {}: result {} expected ok={}", i, st["op"], got, st["ok"])));
+                }
+                let eret = arr(&st["ret"]);
+                if !eret.is_empty() {
+                    if let Some(d) = tree_diff(&eret[0], &got["ret"], false, "ret") {
+                        generic.push(("ret", "value".into(), d));
+                    }
+                }
+            }
+            if !anyvalid {
+                if let Some(d) = tree_diff(&exp["tree"], &obs.read, true, "") {
+                    generic.push(("state", "differs".into(), format!("after {:?}: {}", steps.iter().map(|s| s["op"]["op"].as_str().unwrap_or("").to_string()).collect::<Vec<_>>(), d)));
+                }
+            }
+            if obs.revalidate["ok"] != json!(true) {
+                generic.push(("validate", "own-bytes-rejected".into(), format!("validate(as_bytes()) = {}", obs.revalidate)));
+            }
+            if !obs.oob.is_empty() || !obs.lencap.is_empty() || !obs.other.is_empty() {
+                generic.push(("accessors", "inconsistent".into(), format!("{:?} {:?} {:?}", obs.oob, obs.lencap, obs.other)));
+            }
+            match (&obs.remap, &obs.remap_err) {
+                (Some((yv, _)), _) => {
+                    if let Some(d) = tree_diff(&obs.read, yv, true, "").or_else(|| tree_diff(yv, &obs.read, true, "")) {
+                        generic.push(("remap", "differs".into(), d));
+                    }
+                    if obs.eq_self == Some(false) {
+                        generic.push(("eq", "not-equal-to-copy".into(), "value != a mapped copy of its own bytes".into()));
+                    }
+                }
+                (None, Some(e)) => generic.push(("remap", "rejected".into(), e.clone())),
+                _ => {}
+            }
+            let size_bad = !anyvalid && obs.size != exp["size"].as_u64().unwrap_or(0) as usize;
+            for (p, j) in [("C11", j11), ("C12", j12)] {
+                if has(p) && j {
+                    for (chk, r2, d) in &generic {
+                        out.viol(p, chk, id, &format!("{}:{}", rel, r2), format!("{} ({})", d, tag));
+                    }
+                    if p == "C11" && size_bad {
+                        out.viol(p, "size", id, &rel, format!("size() = {} reference {} ({})", obs.size, exp["size"], tag));
+                    }
+                }
+            }
+            if has("C13") && j13 {
+                // the refused call must not change the observable state; follow-ups behave as in the model
+                for (chk, r2, d) in &generic {
+                    if *chk == "result" && !follow {
+                        continue; // whether the call is refused at all is C11/C12's question
+                    }
+                    out.viol("C13", chk, id, &format!("{}:{}", rel, r2), format!("{} ({})", d, tag));
+                }
+                if size_bad {
+                    out.viol("C13", "size", id, &rel, format!("size() = {} reference {} ({})", obs.size, exp["size"], tag));
+                }
+            }
+            if has("C18") && j18 {
+                for (chk, r2, d) in &generic {
+                    if matches!(*chk, "validate" | "remap" | "accessors") || (*chk == "state" && !anyvalid) {
+                        out.viol("C18", chk, id, &format!("{}:{}", rel, r2), format!("{} ({})", d, tag));
+                    }
+                }
+                // assigning again must not panic either
+                let path0: Vec<usize> = arr(&steps[0]["path"]).iter().map(|p| p.as_u64().unwrap_or(0) as usize).collect();
+                let again = guarded(|| T::from_mut_bytes(pl.slice()).map(|x| x.apply(&path0, &steps[0]["op"], fl)).is_ok());
+                if let Obs::Panic(m) = again {
+                    out.viol("C18", "again", id, &rel, format!("second assignment panicked: {} ({})", m, tag));
+                }
+                pl.slice().copy_from_slice(&post);
+            }
+            if has("C05") && !anyvalid {
+                let es = exp["size"].as_u64().unwrap_or(0) as usize;
+                if obs.size != es {
+                    out.viol("C05", "size", id, &format!("{}:impl=spec{:+}", rel, obs.size as i64 - es as i64), format!("size() = {} reference extent {} after {} ({})", obs.size, es, rel, tag));
+                }
+                if obs.size > l {
+                    out.viol("C05", "size-gt-slice", id, &rel, format!("size() = {} in a slice of {} ({})", obs.size, l, tag));
+                } else {
+                    let p3 = eng.aux.place(obs.size, 0, 16, Place::End);
+                    p3.slice().copy_from_slice(&post[..obs.size]);
+                    match guarded(|| T::from_bytes(p3.slice()).map(|y| (y.read(&mut Ctx::unbounded()), y.size()))) {
+                        Obs::Panic(m) => out.viol("C05", "remap", id, &format!("{}:panic", rel), m),
+                        Obs::Ret(Err(e)) => out.viol("C05", "remap", id, &format!("{}:rejected", rel), format!("first size()={} bytes rejected: {} ({})", obs.size, err_json(&e), tag)),
+                        Obs::Ret(Ok((yv, ys))) => {
+                            if let Some(d) = tree_diff(&obs.read, &yv, false, "").or_else(|| tree_diff(&yv, &obs.read, false, "")) {
+                                out.viol("C05", "remap", id, &format!("{}:content", rel), d);
+                            }
+                            if ys != obs.size {
+                                out.viol("C05", "remap", id, &format!("{}:size", rel), format!("size() {} after re-mapping {}", ys, obs.size));
+                            }
+                        }
+                    }
+                }
+            }
+            if has("C14") {
+                if !pl.canaries_ok() {
+                    out.viol("C14", "outside", id, &rel, format!("bytes outside the slice changed ({})", tag));
+                }
+                if !anyvalid {
+                    let mask = arr(&exp["mask"]);
+                    for (i, m) in mask.iter().enumerate() {
+                        if m.as_i64() == Some(-2) && post[i] != prebytes[i] {
+                            out.viol("C14", "same", id, &rel, format!("byte {} outside the changed part went {} -> {} ({})", i, prebytes[i], post[i], tag));
+                            break;
+                        }
+                    }
+                }
+            }
+            if (has("C11") && j11) || (has("C12") && j12) {
+                // the bytes the format determines
+                if !anyvalid {
+                    let mask = arr(&exp["mask"]);
+                    for (i, m) in mask.iter().enumerate() {
+                        let mv = m.as_i64().unwrap_or(-1);
+                        if mv >= 0 && post[i] as i64 != mv {
+                            let p = if j11 && has("C11") { "C11" } else { "C12" };
+                            out.viol(p, "image", id, &rel, format!("byte {} is {} reference {} ({})", i, post[i], mv, tag));
+                            break;
+                        }
+                    }
+                }
+            }
+        }
+    }
+}
+
 impl Engine {
     pub fn new(default_props: Vec<String>) -> Self {
-        Engine { arena: Arena::new(), default_props, verbose: false }
+        Engine { arena: Arena::new(), aux: Arena::new(), default_props, verbose: false }
     }
 
     pub fn run_case(&self, case: &Value, out: &mut Out) {
@@ -339,6 +866,9 @@ impl Engine {
         let kind = case["k"].as_str().unwrap_or("");
         let known = match kind {
             "dec" => dispatch(id, DecVisitor { eng: self, case, out }).is_some(),
+            "layout" => dispatch(id, LayoutVisitor { eng: self, case, out }).is_some(),
+            "op" => dispatch(id, OpVisitor { eng: self, case, out }).is_some(),
+            "emp" => dispatch(id, EmpVisitor { eng: self, case, out }).is_some(),
             _ => {
                 out.count(&format!("unknown-kind.{}", kind));
                 true
